@@ -240,7 +240,7 @@ func c08RejectProbe(c *vctx, name string, offset uint64) error {
 	if err != nil {
 		return err
 	}
-	crashed := false
+	crashed, errored := false, false
 	var report []string
 	for _, args := range [][]string{{"ls", "latest"}, {"list", "blobs"}, {"unlock"}, {"check"}} {
 		cmd := exec.Command(os.Args[0], append([]string{"-r", e.repo, "--no-cache"}, args...)...)
@@ -260,6 +260,9 @@ func c08RejectProbe(c *vctx, name string, offset uint64) error {
 		if panicked {
 			crashed = true
 		}
+		if args[0] == "ls" && code != 0 { // the index-loading command reports the bad file
+			errored = true
+		}
 		first := strings.SplitN(strings.TrimSpace(string(out)), "\n", 2)[0]
 		if i := bytes.Index(out, []byte("panic: ")); i >= 0 {
 			first = strings.SplitN(string(out[i:]), "\n", 2)[0]
@@ -271,7 +274,7 @@ func c08RejectProbe(c *vctx, name string, offset uint64) error {
 		kind = "index-oversized-value"
 	}
 	c.Info(name, report)
-	c.Case(kind, true, 1, fmt.Sprintf("C08m.CReject %s %s", coqBool(offset <= 4294967295), coqBool(crashed)),
+	c.Case(kind, true, 1, fmt.Sprintf("C08m.CReject [(1, [(%d, 1, %d, 40, 0)])] %s %s", uint64(restic.DataBlob), offset, coqBool(crashed), coqBool(errored)),
 		fmt.Sprintf("index file %s = %s; %s", fileID.Str(), raw, strings.Join(report, "; ")))
 	return nil
 }
